@@ -130,7 +130,7 @@ func (f *frame) libCall(callee *ssa.Function, c *ssa.CallCommon, base string, re
 		if e.R.sortOf(c.Args[1].Type()) == "Str" && callee.Name() != "IndexAny" {
 			sub = fmt.Sprintf("(slen %s)", arg(1))
 		}
-		f.assume(fmt.Sprintf("(or (= %s #xffffffffffffffff) (and (bvsle #x0000000000000000 %s) (bvsle (bvadd %s %s) (slen %s))))", r.term, r.term, r.term, sub, s))
+		f.assume(fmt.Sprintf("(or (= %s #xffffffffffffffff) (and (bvsle #x0000000000000000 %s) (bvsle %s (slen %s)) (bvsle %s (bvsub (slen %s) %s))))", r.term, r.term, sub, s, r.term, s, sub))
 		return r
 	case "strings.Count":
 		used("Count: number of non-overlapping instances, 0 <= n <= len(s)+1")
